@@ -40,6 +40,8 @@ def circuits(env, tier="quick"):
         {"name": "u3_lossy", "n": 3, "ops": [("uni", 3, 0, False), ("loss", 1, g), ("bs", 0, 1, env.R[1], "Rx", 0)],
          "input": (1, 1, 0)},
         {"name": "u2_bunch", "n": 2, "ops": [("uni", 2, 0, False)], "input": (2, 0)},
+        {"name": "u3_lossy_herald1", "n": 3, "ops": [("uni", 3, 0, False), ("loss", 0, g), ("loss", 2, env.L2), ("her", 1, 2, 2)],
+         "input": (1, 1)},
         {"name": "u3_herald_io", "n": 3, "ops": [("uni", 3, 0, False), ("her", 1, 0, 2, "np")], "input": (0, 1)},
         {"name": "sub_anc", "n": 2, "ops": [("add", "h3mid", 0, False), ("bs", 0, 1, env.R2, "H", 0)], "input": (1, 0)},
     ]
